@@ -34,13 +34,21 @@ MACROS = [
     "(define-syntax bad1 (syntax-rules () ((_ a ...) (list a ...))))",
     "(define-syntax bad2 (syntax-rules () ((bad2 a) (5 ...))))",
     "(define-syntax bad3 (syntax-rules ::: () ((bad3 a) (a . :::)) 7))",
+    # a define-syntax that is the WHOLE EXPANSION of a bundled derived form (the single operand of and / or, a lone cond test, the
+    # body of begin / when): the keyword belongs to the instance that evaluated the form, like any other
+    "(or (define-syntax twice (syntax-rules () ((twice q) 'hijacked))))",
+    "(and (define-syntax f (syntax-rules () ((f) 'hijacked-f))))",
+    "(cond ((define-syntax shared (syntax-rules () ((shared) 'hijacked-shared)))))",
+    "(begin (define-syntax my-m (syntax-rules () ((my-m a) 'begin-made))))",
+    "(when #t (define-syntax twice (syntax-rules () ((twice q) 'when-made))))",
+    "(and (define-syntax cond (syntax-rules ())))",
 ]
 USES = ["(cond (#f 1) (else 2))", "(let ((q 1)) (+ q 1))", "(my-m 5)", "(and 1 2)", "(begin 1 2)", "(or #f 3)", "(case 1 ((1) 'one) (else 'other))",
         "(when #t 1 2)", "(map (lambda (q) (* q q)) '(1 2 3))", "(append '(1) '(2))",
         "(sw 5)", "(sw 1 2)", "(sw 7 8 9)", "(pk 1 2)", "(pk (3))", "(pk 4 5 6)", "(my-m)", "(my-m 1 2)",
         "(my-list 1 2 3)", "(my-list)", "(cl 1 2)", "(cl2 1)", "(my-list 4)", "(cl 1 2 3)",
         "(or #f 3)", "(cond (#f 1) (2 => (lambda (v) (* v 10))))", "(case (+ 1 0) ((1) 'one) (else 'other))", "(or #f #f 4)"]
-OTHER = ["(define shared 1)", "(set! shared (+ shared 1))", "shared", "(define (f) 'mine)", "(f)", "(car '())", "(undefined-zz)",
+OTHER = ["(define (twice q) (* 2 q))", "(twice 21)", "(twice 4)", "(define shared 1)", "(set! shared (+ shared 1))", "shared", "(define (f) 'mine)", "(f)", "(car '())", "(undefined-zz)",
          "(import (scheme base))", "(import (nonexistent lib))", "(define car cdr)", "(car '(1 2))", "(set! undefined-yy 1)",
          "(define v (vector 1 2))", "(vector-set! v 0 'x)", "v", "(1 2", "(define-syntax broken (syntax-rules", ")"]
 
